@@ -8,6 +8,7 @@ package c04
 
 import (
 	"fmt"
+	"os"
 	"runtime"
 	"strings"
 	"time"
@@ -357,8 +358,26 @@ func enumerate(nkeys, maxPre, maxDuring int, f func(c Case)) {
 }
 
 func run(r *mc.Run) {
+	runA(r)
+	if r.Replay == "" && r.ChildPhase() == "" {
+		// part (b): writes racing the compaction copy, explored in the sched group binary (overlay build)
+		r.WorkerProcs = 1
+		r.ParallelExe(os.Getenv("VERIF_BIN_sched"), "sched", 16, func(shard, n int) { Schedules(r, shard, n) })
+	}
+}
+
+func runA(r *mc.Run) {
 	volkit.Quiet()
+	if r.ChildPhase() == "sched" {
+		// worker of part (b) inside the sched group binary
+		r.WorkerProcs = 1
+		r.ParallelExe(os.Getenv("VERIF_BIN_sched"), "sched", 16, func(shard, n int) { Schedules(r, shard, n) })
+		return
+	}
 	if r.Replay != "" {
+		if ReplaySchedule(r) {
+			return
+		}
 		var c Case
 		if err := r.ReplayCase(&c); err != nil {
 			mc.Fatal("replay: %v", err)
@@ -373,7 +392,7 @@ func run(r *mc.Run) {
 	}
 	r.Assume("volume TTL 1h and LastModified offsets of 2h keep every clock comparison of the code at least one hour away from its boundary; no oracle looks at the wall clock")
 	r.Assume("in-memory needle map; the writer is sequential (the interleaved part (b) of the design is a separate check)")
-		var slices []slice
+	var slices []slice
 	if r.Quick() {
 		slices = []slice{{2, 1, 1}, {1, 2, 1}, {2, 2, 0}}
 	} else {
